@@ -1017,3 +1017,95 @@ def check_flag_tests_agree(ctx, rule: str, module_paths, floor: int = 0) -> int:
                           '(np.True_, 1) is taken as set by one site and as unset by the other' % (construct, norm(node)[:40], norm(other[1])[:40], other[0].qualname),
                           fn.path, node.lineno, operand=construct)
     return n
+
+
+# ---------------------------------------------------------------------------------------------------------------
+EMPTY_CTORS = {'np.empty', 'numpy.empty', 'np.empty_like', 'numpy.empty_like', 'np.ndarray', 'numpy.ndarray'}
+
+
+def uninitialised_accumulators(fn: FuncInfo):
+    """(aug-assign node, name, creation call): a local array created with `np.empty(...)` (arbitrary memory) is ACCUMULATED
+    into (`x[...] += v`, `x += v`, `np.add(x, v, out=x)`, `np.add.at(x, ...)`) although no statement before that one has
+    stored into it at all (`x[..] = ..`, `x.fill(..)`): the sum starts from whatever the memory held."""
+    stmts = stmts_in_order(fn)
+    order = {id(s): i for i, s in enumerate(stmts)}
+    created = {}
+    for s in stmts:
+        if isinstance(s, ast.Assign) and len(s.targets) == 1 and isinstance(s.targets[0], ast.Name):
+            v = s.value
+            if isinstance(v, ast.Call) and norm(v.func) in EMPTY_CTORS:
+                created.setdefault(s.targets[0].id, []).append((order[id(s)], v))
+            elif s.targets[0].id in created:
+                created[s.targets[0].id].append((order[id(s)], None))        # rebound to something else
+    if not created:
+        return
+
+    def whole_write(s, name) -> bool:
+        # any plain element / slice store counts: how much of the array it covers is not decidable here, so only an
+        # accumulation with NO earlier plain store at all is reported
+        if isinstance(s, ast.Assign):
+            for t in s.targets:
+                root = t
+                while isinstance(root, ast.Subscript):
+                    root = root.value
+                if isinstance(t, ast.Subscript) and isinstance(root, ast.Name) and root.id == name:
+                    return True
+        if isinstance(s, ast.Expr) and isinstance(s.value, ast.Call) and isinstance(s.value.func, ast.Attribute) \
+                and s.value.func.attr == 'fill' and isinstance(s.value.func.value, ast.Name) and s.value.func.value.id == name:
+            return True
+        return False
+
+    for s in stmts:
+        name = None
+        if isinstance(s, ast.AugAssign):
+            t = s.target
+            root = t
+            while isinstance(root, ast.Subscript):
+                root = root.value
+            if isinstance(root, ast.Name) and root.id in created:
+                name = root.id
+        elif isinstance(s, ast.Expr) and isinstance(s.value, ast.Call):
+            c = s.value
+            f = norm(c.func)
+            out = next((k.value for k in c.keywords if k.arg == 'out'), None)
+            if f.endswith('.at') and c.args and isinstance(c.args[0], ast.Name) and c.args[0].id in created:
+                name = c.args[0].id
+            elif isinstance(out, ast.Name) and out.id in created and any(isinstance(a, ast.Name) and a.id == out.id for a in c.args):
+                name = out.id
+        if name is None:
+            continue
+        i = order[id(s)]
+        last = [x for x in created[name] if x[0] < i]
+        if not last or last[-1][1] is None:
+            continue
+        j, call = last[-1]
+        if any(whole_write(x, name) for x in stmts[j + 1:i]):
+            continue
+        yield s, name, call
+        created.pop(name)
+        if not created:
+            return
+
+
+def check_accumulators_initialised(ctx, rule: str, module_paths, floor: int = 0) -> int:
+    ctx.rule(rule, 'an array created with np.empty is never accumulated into (`x[..] += v`, `x += v`, ufunc `out=x`, `ufunc.at(x, ..)`) before '
+                   'anything was stored in it: accumulators start from np.zeros', floor=floor)
+    M = ctx.model
+    n = 0
+    for path in module_paths:
+        mod = M.module(path)
+        fns = [f for c in mod.classes.values() for f in list(c.methods.values()) + list(c.getters.values())] + list(mod.functions.values())
+        for fn in fns:
+            ctors = [x for x in walk_no_nested(fn.node) if isinstance(x, ast.Call) and norm(x.func) in EMPTY_CTORS | {'np.zeros', 'numpy.zeros', 'np.zeros_like'}]
+            if not ctors or not any(isinstance(x, ast.AugAssign) for x in walk_no_nested(fn.node)):
+                continue
+            construct = fn.qualname
+            ctx.instance(rule, construct)
+            n += 1
+            hits = list(uninitialised_accumulators(fn))
+            ctx.obligation(rule, construct, not hits, {'accumulated_from_garbage': [h[1] for h in hits]} if hits else None, nontrivial=True)
+            for node, name, call in hits[:1]:
+                ctx.violation(rule, construct, '`%s = %s` holds arbitrary memory and is accumulated into at line %d before anything was stored '
+                              'in it: the result is the sum plus garbage (use np.zeros)' % (name, norm(call)[:50], node.lineno),
+                              fn.path, node.lineno, operand='empty-accumulator:' + name)
+    return n
